@@ -307,6 +307,11 @@ def units_for(prop, tier):
         us.append({"runner": "early", "prop": prop, "id": "early-termination/C14"})
     if "own" in fams:
         us.append({"runner": "own", "prop": prop, "id": f"ownership-conditions/{prop}"})
+    if prop == "C40":
+        # "released exactly once when the subscription terminates or is disposed": the resource / the finally-action's handle must be OWNED by what
+        # the operator returns - the ownership contracts of the three anchor files are re-proved here
+        us.append({"runner": "own", "prop": prop, "id": "ownership-conditions/C40", "files": ["reactivex/observable/using.py", "reactivex/operators/_finallyaction.py",
+                                                                                              "reactivex/operators/_do.py"]})
     if "seqlemma" in fams:
         us.append({"runner": "seqlemma", "prop": prop, "id": "specs/c17q.py::queue-functions"})
     if "mcast" in fams:
